@@ -130,7 +130,8 @@ func inCode(spans []model.Span, o int) bool {
 	return code
 }
 
-var illegalChars = []string{"#", "~", "$", "&", "|", "^", "`", "\\", "\x7f"}
+// characters that are neither part of the language nor white space in code (blank, tab, CR, LF)
+var illegalChars = []string{"#", "~", "$", "&", "|", "^", "`", "\\", "\x7f", "\v", "\f", "\x85", "\xa0", "\x00", "\x1b", "\xc2\xa0", "\u2028", "\ufeff"}
 
 // templates with an illegal character in code, and operands directly followed by "("
 var illegalTable = []string{
@@ -138,6 +139,7 @@ var illegalTable = []string{
 	"@component('c')@slot($)x@end@end", "@slot(#)", "{{ # }}", "{{ 1 # 2 }}", "@if(#)x@end", "@if(true)x@elseif(#)y@end", "@dump(#)", "@dump(1, #)", "@breakIf(#)", "@continueIf(~)",
 	"@for(#;;)x@break@end", "@for(i = 0; #; i++)x@break@end", "@for(i = 0; i < 1; #)x@end", "{{ x.# }}", "{{ x[#] }}", "{{ [#] }}", "{{ [1, #] }}", "{{ x ? # : 1 }}", "{{ x ? 1 : # }}",
 	"{{ x = # }}", "{{ # = 1 }}", "{{ x.f(#) }}", "{{ -# }}", "{{ !# }}", "{{ (#) }}", "@component(\"c\", {a: #})", "@component(\"c\", #)", "{{ a & b }}", "{{ a | b }}", "{{ a ^ b }}", "{{ `x` }}",
+	"{{ 1 +\v2 }}", "{{ 1 +\f2 }}", "{{ 1\x85+ 2 }}", "{{ 1 + 2\xa0}}", "@if(\vx)y@end", "@each(v\fin [1])y@end", "{{\u00a01 }}", "{{ x\u2028.y }}", "@component(\"c\",\v{a: 1})", "{{ [1,\f2] }}",
 }
 
 var mustReturnTable = []string{
